@@ -309,6 +309,23 @@ def parse_strace(log_path, root, ack_path, names):
     return ev, counts, start_counts or {}
 
 
+def _run_group(argv, timeout, env, cwd):
+    """subprocess.run with the child in its own process group, killed as a group on timeout (strace + tracees)."""
+    import signal
+    import subprocess
+    pr = subprocess.Popen(argv, cwd=cwd, env=env, stdout=subprocess.PIPE, stderr=subprocess.PIPE, text=True, start_new_session=True)
+    try:
+        out, err = pr.communicate(timeout=timeout)
+        return subprocess.CompletedProcess(argv, pr.returncode, out, err)
+    except subprocess.TimeoutExpired:
+        try:
+            os.killpg(pr.pid, signal.SIGKILL)
+        except ProcessLookupError:
+            pass
+        out, err = pr.communicate()
+        return subprocess.CompletedProcess(argv, 124, out or "", err or "")
+
+
 def run_sys_job(ck, binary, job, tag, inject=None, timeout=60):
     """Run one worker job under strace (optionally with an injection), then the verifier. Returns the event list
     (Init ... exit, verify), the call counts of the run and the counts at the START marker."""
@@ -322,9 +339,10 @@ def run_sys_job(ck, binary, job, tag, inject=None, timeout=60):
     # strace counts `when=k` per thread: keep the Go scheduler on one P so that nearly all calls of the writers
     # come from one thread and k enumerates the calls of the process (goroutines still interleave at blocking points)
     env = dict(os.environ, VERIF_SEED=str(ck.seed), TMPDIR=d, GOMAXPROCS=os.environ.get("VERIF_GOMAXPROCS", "1"))
-    p = ck.sh(strace_cmd(log, binary, ["worker", jp], inject), timeout=timeout, env=env, cwd=d)
-    if p.returncode == 124:
-        raise vkit.Infra("worker %s timed out under strace" % tag)
+    p = _run_group(strace_cmd(log, binary, ["worker", jp], inject), timeout, env, d)
+    timed_out = p.returncode == 124
+    if timed_out and not inject:
+        raise vkit.Infra("worker %s timed out under strace without any injection" % tag)
     if not os.path.exists(job["ack"] + ".names"):
         # killed before the worker wrote its name table: nothing was written to the tree
         names = {}
@@ -334,6 +352,13 @@ def run_sys_job(ck, binary, job, tag, inject=None, timeout=60):
         except ValueError:          # killed while writing the name table, i.e. before the tree was touched
             names = {}
     ev, counts, start = parse_strace(log, job["root"], job["ack"], names)
+    if timed_out:
+        # the whole process group was killed by us: before the start marker the fault hit the runtime / set-up
+        # (discarded by the callers as a misfire), after it the writers hung without the watchdog firing
+        counts["_timeout"] = True
+        ev = [e for e in ev if e["ev"] != "exit"] + [{"ev": "exit", "st": "hang" if start else "killed"}]
+        if not start:
+            counts["_injected"] = [dict(x, after_start=False) for x in counts.get("_injected", [])] or [{"call": "?", "on_tree": False, "after_start": False}]
     stderr_tail = p.stderr[-1500:] if p.stderr else ""
     outp = os.path.join(d, "verify.json")
     pv = ck.sh([binary, "verify", jp, outp], timeout=timeout, env=env, cwd=d)
